@@ -188,6 +188,27 @@ func checkAccrual(c *core.Ctx, endRoot *ssa.Function) {
 		return
 	}
 	emi, vol := false, false
+	// the counter may be advanced through a helper: addEmission(x) = SetEmission(Emission() + x)
+	for _, s := range core.Sites(end) {
+		h := s.Common.StaticCallee()
+		if h == nil || h.Blocks == nil || core.PkgOf(h) != core.PkgOf(end) {
+			continue
+		}
+		for i, a := range s.Common.Args {
+			if core.Unwrap(a) != pay || i >= len(h.Params) {
+				continue
+			}
+			p := h.Params[i]
+			for _, hs := range core.Sites(h) {
+				if methodName(hs) == "SetEmission" && core.DependsOn(hs.Arg(0), func(v ssa.Value) bool { return v == ssa.Value(p) }) && core.DependsOn(hs.Arg(0), func(v ssa.Value) bool {
+					call, ok := v.(*ssa.Call)
+					return ok && methodNameOfCall(call) == "Emission"
+				}) {
+					emi = true
+				}
+			}
+		}
+	}
 	for _, s := range core.Sites(end) {
 		switch methodName(s) {
 		case "SetEmission":
